@@ -375,7 +375,7 @@ pub fn gen_counts(ch: &mut Chooser, fam: Family, scale: u8) -> (usize, usize) {
         _ => (24000, 14),
     };
     for _ in 0..8 {
-        let mut one = |ch: &mut Chooser| {
+        let one = |ch: &mut Chooser| {
             if ch.chance("cfg.pow2ish", 1, 3) {
                 near_pow2(ch, max_log)
             } else {
